@@ -64,6 +64,14 @@ CHECKS.update({
   "DESIGN.md 4 C04"),
 })
 
+CHECKS.update({
+ "C20": ("exploration", "mutx",
+  "exhaustive enumeration of the statement's finite mutation family (every line x every operator x both argument positions, whole-file cases, info files), each mutant run through the real CompareFiles in-process with panic classification by call site and a per-case watchdog",
+  "The family the statement defines is finite and is enumerated completely (quick: truncation, token deletion, emptied line; thorough: all operators). Every mutant is executed; exit status, message and panic site are classified. This is exhaustive exploration of a stated finite input family, not sampling.",
+  "In-process recover() stands for the exit status 2 + trace of the binaries; do-approve/missing-approve status files are covered by C13's damage events.",
+  "DESIGN.md 4 C20"),
+})
+
 NOT_YET = "check not built yet in this round (design in DESIGN.md section 4); no technique switch intended"
 
 def main():
